@@ -21,7 +21,7 @@ from concurrent.futures import ThreadPoolExecutor
 from pathlib import Path
 
 VERIF = Path("/verif")
-REPO = Path("/repo")
+REPO = Path(os.environ.get("VERIF_REPO", "/repo"))  # overridden only by tools/try_seed_wt.sh
 PY = str(VERIF / ".venv/bin/python")
 EXIT_OK, EXIT_VIOLATION, EXIT_HARNESS = 0, 1, 3
 
